@@ -234,6 +234,12 @@ func (rt *runtime) convertNumeric(v Value, t reflect.Type) reflect.Value {
 
 			return val.Convert(t)
 		case reflect.Int, reflect.Int8, reflect.Int16, reflect.Int32, reflect.Int64, reflect.Uint, reflect.Uint8, reflect.Uint16, reflect.Uint32, reflect.Uint64:
+			if f64 >= 1<<63 && f64 < 1<<64 {
+				// Above the int64 range but within uint64; a float64 this large is an integer.
+				val = reflect.ValueOf(uint64(f64))
+				break
+			}
+
 			i64 := int64(f64)
 			if float64(i64) != f64 {
 				panic(rt.panicRangeError(fmt.Sprintf("converting %v to %v would cause loss of precision", val.Type(), t)))
